@@ -211,6 +211,177 @@ def batch(arg):
                   sample=text[:900] if n == 0 else None)
     return part
 
+# ---------------------------------------------------------------- structures
+STRUCT_HEAD = """module smod
+  implicit none
+  type :: t2
+    double precision :: c(5)
+    integer :: k
+  end type t2
+  type :: t1
+    type(t2) :: b(5)
+    double precision :: v(5)
+    integer :: q
+  end type t1
+contains
+  subroutine rsub(p)
+    double precision, intent(inout) :: p
+    p = p + 1.0d0
+  end subroutine rsub
+  subroutine isub(p, r)
+    integer, intent(inout) :: p
+    double precision, intent(in) :: r
+    p = p + int(r)
+  end subroutine isub
+  subroutine kern(s, w, x, i, j, l, m, n)
+    type(t1), intent(inout) :: s(5)
+    type(t1), intent(inout) :: w
+    double precision, intent(inout) :: x
+    integer, intent(inout) :: i, j, l, m, n
+    integer :: d
+"""
+IDX = ["i", "j", "l", "m", "n"]
+
+
+def _designator(rnd, want, depth=0):
+    """(text, base, index variables) of a random scalar designator of type
+    `want` ('r' or 'i') through the derived types; subscripts are index
+    variables, i+1 style expressions or (depth 0) another integer
+    designator."""
+    used = set()
+    bases = set()
+
+    def sub():
+        x = rnd.random()
+        v = rnd.choice(IDX)
+        if x < 0.6 or (x >= 0.8 and depth > 0):
+            used.add(v)
+            return v
+        if x < 0.8:
+            used.add(v)
+            return "min(5, %s + 1)" % v
+        if depth == 0:
+            t, b, u = _designator(rnd, "i", depth + 1)
+            used.update(u[0])
+            bases.update(u[1])
+            bases.add(b)
+            return "max(1, min(5, %s))" % t
+        return v
+    base = rnd.choice(["s", "w"])
+    head = "s(%s)" % sub() if base == "s" else "w"
+    if want == "r":
+        tail = rnd.choice(["v", "bc"])
+        if tail == "v":
+            text = "%s%%v(%s)" % (head, sub())
+        else:
+            text = "%s%%b(%s)%%c(%s)" % (head, sub(), sub())
+    else:
+        tail = rnd.choice(["q", "bk"])
+        if tail == "q":
+            text = "%s%%q" % head
+        else:
+            text = "%s%%b(%s)%%k" % (head, sub())
+    return text, base, (used, bases)
+
+
+def struct_batch(arg):
+    """Statements whose designators go through derived types: the index
+    variables of EVERY component (and the bases) are read, the base of an
+    assignment target / of an actual argument of a non-pure call is written.
+    The expected sets are known by construction."""
+    from psyclone.psyir.nodes import Routine
+    part = Part()
+    rnd = random.Random(arg["seed"])
+    for n in range(arg["count"]):
+        stmts = []      # (text lines, kind, expected reads, expected writes)
+        for _ in range(rnd.randint(3, 6)):
+            x = rnd.random()
+            if x < 0.3:
+                lt, lb, (lu, lbs) = _designator(rnd, "r")
+                rt, rb, (ru, rbs) = _designator(rnd, "r")
+                stmts.append((["%s = %s + x" % (lt, rt)], "assign",
+                              lu | ru | lbs | rbs | {rb, "x"}, {lb}))
+            elif x < 0.45:
+                lt, lb, (lu, lbs) = _designator(rnd, "i")
+                rt, rb, (ru, rbs) = _designator(rnd, "i")
+                stmts.append((["%s = %s + 1" % (lt, rt)], "assign",
+                              lu | ru | lbs | rbs | {rb}, {lb}))
+            elif x < 0.65:
+                at, ab, (au, abs_) = _designator(rnd, "r")
+                stmts.append((["call rsub(%s)" % at], "call",
+                              au | abs_ | {ab}, {ab}))
+            elif x < 0.8:
+                at, ab, (au, abs_) = _designator(rnd, "i")
+                bt, bb, (bu, bbs) = _designator(rnd, "r")
+                stmts.append((["call isub(%s, %s)" % (at, bt)], "call",
+                              au | abs_ | bu | bbs | {ab, bb}, {ab}))
+            elif x < 0.9:
+                ct, cb, (cu, cbs) = _designator(rnd, "r")
+                stmts.append((["if (%s > 0.5d0) then" % ct, "  x = x + 1.0d0",
+                               "end if"], "if", cu | cbs | {cb, "x"}, {"x"}))
+            else:
+                at, ab, (au, abs_) = _designator(rnd, "i")
+                stmts.append((["do d = 1, max(1, min(3, %s))" % at,
+                               "  x = x + 1.0d0", "end do"], "do",
+                              au | abs_ | {ab, "x"}, {"x", "d"}))
+        text = STRUCT_HEAD + "".join("    %s\n" % l for st in stmts
+                                     for l in st[0]) + \
+            "  end subroutine kern\nend module smod\n"
+        try:
+            tree = psy.read(text)
+        except Exception as err:
+            part.count("struct_reader_failed")
+            continue
+        kern = [r for r in tree.walk(Routine) if r.name == "kern"][0]
+        if len(kern.children) != len(stmts):
+            part.count("statement_mapping_failed")
+            continue
+        from psyclone.psyir.nodes import CodeBlock
+        for (lines, kind, rexp, wexp), node in zip(stmts, kern.children):
+            if node.walk(CodeBlock):
+                part.count("struct_codeblock")
+                continue
+            try:
+                rep = reported(node)
+            except NotImplementedError as err:
+                # documented, explicit refusal (a(a(i)) = ...): no access
+                # information is given at all, nothing is silently dropped
+                part.count("access_info_declined:NotImplementedError")
+                continue
+            except Exception as err:
+                part.violation({
+                    "kind": "access_info_raised", "mechanism": None,
+                    "what": "%s: %s on %s" % (type(err).__name__,
+                                              str(err)[:150], lines[0]),
+                    "source": text, "dedupe": type(err).__name__})
+                continue
+            part.count("statements_compared")
+            part.count("struct_statements_compared:" + kind)
+            for var in sorted(rexp):
+                if not rep.get(var, {}).get("R"):
+                    part.violation({
+                        "kind": "actual_read_not_reported",
+                        "mechanism": None,
+                        "what": "'%s' reads %s (a subscript or base inside a "
+                                "structure access) but it is %s" % (
+                                    lines[0], var, "reported only as written"
+                                    if var in rep else "not reported"),
+                        "stmt_kind": kind, "var": var, "source": text,
+                        "dedupe": ("struct", kind, "R")})
+            for var in sorted(wexp):
+                if not rep.get(var, {}).get("W"):
+                    part.violation({
+                        "kind": "actual_write_not_reported",
+                        "mechanism": None,
+                        "what": "'%s' modifies %s but it is %s" % (
+                            lines[0], var, "reported only as read"
+                            if var in rep else "not reported"),
+                        "stmt_kind": kind, "var": var, "source": text,
+                        "dedupe": ("struct", kind, "W")})
+        part.case(key=text, nontrivial=True,
+                  sample=text[-900:] if n == 0 else None)
+    return part
+
 
 def mech(kind, fst, var, rw):
     """Mechanism facts from my AST: which kind of statement and argument."""
@@ -238,6 +409,11 @@ def main(ctx):
     for res in ctx.pmap("vf.checks.c11", "batch", jobs, timeout=3400):
         if res:
             ctx.merge(res)
+    sjobs = [{"seed": ctx.rng("s", i).random(),
+              "count": 60 if ctx.quick else 400} for i in range(16)]
+    for res in ctx.pmap("vf.checks.c11", "struct_batch", sjobs, timeout=3400):
+        if res:
+            ctx.merge(res)
     if ctx.counters.get("statements_compared", 0) == 0:
         ctx.inconclusive("no statement was compared")
     ctx.assumptions += [
@@ -247,4 +423,9 @@ def main(ctx):
         "pre-order position and is verified by counts (else the program is "
         "skipped and counted)",
         "RANDOM_NUMBER/MVBITS semantics are modelled by the interpreter "
-        "(harvest / TO are written)"]
+        "(harvest / TO are written)",
+        "structure accesses (derived types are outside the reference "
+        "interpreter): the expected reads/writes of a statement are known "
+        "by construction (every subscript variable and base of a designator "
+        "is read; the base of an assignment target or of an actual argument "
+        "of a non-pure call is written)"]
